@@ -30,7 +30,9 @@ def hdf5_writer(filename, data, components=None):
 
     from h5py import File
 
-    f = File(filename, 'w')
+    # Keep track of the order in which the components are written, so that
+    # they can be read back in the same order (the default is by name)
+    f = File(filename, 'w', track_order=True)
 
     for cid in data.main_components + data.derived_components:
 
